@@ -216,21 +216,21 @@ def joinDots : List (List Nat) → List Nat
   | [l] => l
   | l :: ls => l ++ 46 :: joinDots ls
 
-/-- The A-label branch for one label: `(new label, error recorded by this label)`.
-`errBefore` is `err != nil` on entry (the unicode16 check looks at it). -/
-def alabelStep (u16 : Bool) (errBefore : Bool) (label : List Nat) : List Nat × Bool :=
+/-- The A-label branch for one label: `(new label, error recorded by this label)`:
+`decode` fails → error, label kept; `if err == nil && isASCII(u) { err = punyError(enc) }`
+(the error only accumulates, so `err == nil` does not show in the Boolean). -/
+def alabelStep (label : List Nat) : List Nat × Bool :=
   if acePrefix.isPrefixOf label then
     match decode (label.drop 4) with
     | none => (label, true)                                   -- "Spec says keep the old label."
-    | some u =>
-      (u, u16 && !errBefore && decide (u.length > 0) && isAscii u)
+    | some u => (u, isAscii u)
   else (label, false)
 
-def firstLoop (u16 : Bool) : Bool → List (List Nat) → List (List Nat) × Bool
+def firstLoop : Bool → List (List Nat) → List (List Nat) × Bool
   | err, [] => ([], err)
   | err, l :: ls =>
-    let (l', e) := alabelStep u16 err l
-    let (ls', err') := firstLoop u16 (err || e) ls
+    let (l', e) := alabelStep l
+    let (ls', err') := firstLoop (err || e) ls
     (l' :: ls', err')
 
 def secondLoop (u16 : Bool) : Bool → List (List Nat) → List (List Nat) × Bool
@@ -246,7 +246,7 @@ def secondLoop (u16 : Bool) : Bool → List (List Nat) → List (List Nat) × Bo
 
 /-- `Punycode.process(s, toASCII)`: `(result, err != nil)`. -/
 def processPunycode (u16 : Bool) (toASCII : Bool) (s : List Nat) : List Nat × Bool :=
-  let (ls, err) := firstLoop u16 false (splitDots s)
+  let (ls, err) := firstLoop false (splitDots s)
   if toASCII then
     let (ls', err') := secondLoop u16 err ls
     (joinDots ls', err')
@@ -279,22 +279,13 @@ def lowerAscii (c : Nat) : Nat := if 65 ≤ c ∧ c ≤ 90 then c + 32 else c
 
 def hasAce (l : List Nat) : Bool := acePrefix.isPrefixOf l
 
-/-- `xn--` label whose payload decodes (as coded) to ASCII only (possibly empty). This is the
-region on which the current code deviates from the property (`unicode16` gate). -/
+/-- `xn--` label whose payload decodes (as coded) to ASCII only (possibly empty). -/
 def asciiOnlyALabel (l : List Nat) : Bool :=
   hasAce l && (match decode (l.drop 4) with | some u => isAscii u | none => false)
 
 /-- `xn--` label whose payload does not decode. -/
 def undecodableALabel (l : List Nat) : Bool :=
   hasAce l && (decode (l.drop 4)).isNone
-
-/-- The full stops UTS 46 maps to `.` (U+3002, U+FF0E, U+FF61). -/
-def foldDot (c : Nat) : Nat := if c = 12290 ∨ c = 65294 ∨ c = 65377 then 46 else c
-
-/-- Domain containing an ASCII-only A-label (ASCII case and the UTS 46 full stops folded, as the
-mapping profiles do). -/
-def excluded (x : List Nat) : Bool :=
-  (splitDots ((x.map lowerAscii).map foldDot)).any asciiOnlyALabel
 
 /-- Lower-case ASCII domain: the UTS 46 mapping step of every profile is the identity on it. -/
 def asciiLower (x : List Nat) : Bool := x.all (fun c => decide (c < 128) && !(decide (65 ≤ c) && decide (c ≤ 90)))
@@ -314,12 +305,13 @@ def aceLabelCanonical (l : List Nat) : Bool :=
   else true
 
 /-- `none` = accepted. -/
+def badALabel (l : List Nat) : Bool := undecodableALabel l || asciiOnlyALabel l
+
 def monitorObs (o : Obs) : Option String :=
-  if excluded o.x || excluded o.u then none
-  else if asciiLower o.x && (splitDots o.x).any undecodableALabel && !o.ae then
-    some "undecodable-alabel-accepted-by-toascii"
-  else if asciiLower o.x && (splitDots o.x).any undecodableALabel && !o.ue then
-    some "undecodable-alabel-accepted-by-tounicode"
+  if asciiLower o.x && (splitDots o.x).any badALabel && !o.ae then
+    some "undecodable-or-ascii-only-alabel-accepted-by-toascii"
+  else if asciiLower o.x && (splitDots o.x).any badALabel && !o.ue then
+    some "undecodable-or-ascii-only-alabel-accepted-by-tounicode"
   else if asciiLower o.x && !o.ue && o.u != expectedUnicode o.x then
     some "tounicode-differs-from-model-decode"
   else if o.ae then none
